@@ -8,7 +8,7 @@ meta = props.get("_meta", {})
 checks, na = [], []
 for pid in ids:
     p = props.get(pid)
-    if not p or not p.get("claimed"):
+    if not p or not p.get("claimed") or pid not in meta.get("integrated", []):
         na.append({"property_id": pid, "reason": (p or {}).get("na_reason", "check not built yet in this round; the technique applies (see DESIGN.md section 6) and the property will be claimed once its model, theorems and correspondence check run green")})
         continue
     checks.append({
